@@ -5,8 +5,8 @@ import QmcProofs.FastOpsFill
 
 namespace Qmc
 
-theorem occV_append_none (s : Slots) (k v : Nat) : occV (s ++ List.replicate k none) v = occV s v := by
-  funext q; unfold occV; rw [FastOps.slotAt_append_none]
+theorem occV_append_none (s : Slots) (k v : Nat) : occVAt (s ++ List.replicate k none) v = occVAt s v := by
+  funext q; unfold occVAt; rw [FastOps.slotAt_append_none]
 
 theorem relAt_append_none (s : Slots) (k v : Nat) : relAt (s ++ List.replicate k none) v = relAt s v := by
   funext q; unfold relAt; rw [FastOps.slotAt_append_none]
@@ -55,13 +55,13 @@ theorem grow_canon (nv : Nat) (nb : Option Nat) (s : Slots) (k : Nat) :
         intro w _
         unfold nextRel
         rw [occV_append_none, relAt_append_none]
-        have hout : ∀ j, s.length ≤ j → occV s w j = false := by
+        have hout : ∀ j, s.length ≤ j → occVAt s w j = false := by
           intro j hj
-          cases h : occV s w j with
+          cases h : occVAt s w j with
           | false => rfl
           | true => have := occV_lt h; omega
         have hL : s.length ≤ (s ++ List.replicate (k - s.length) none).length := by simp
-        have := nextOcc_extend (P := occV s w) (q := q) hL hout
+        have := nextOcc_extend (P := occVAt s w) (q := q) hL hout
         rw [this]
     · rfl
   · intro q
@@ -87,14 +87,14 @@ theorem grow_canon (nv : Nat) (nb : Option Nat) (s : Slots) (k : Nat) :
       intro w _
       unfold canonVarEnd firstRel lastRel
       rw [occV_append_none, relAt_append_none]
-      have hout : ∀ j, s.length ≤ j → occV s w j = false := by
+      have hout : ∀ j, s.length ≤ j → occVAt s w j = false := by
         intro j hj
-        cases h : occV s w j with
+        cases h : occVAt s w j with
         | false => rfl
         | true => have := occV_lt h; omega
       have hL : s.length ≤ (s ++ List.replicate (k - s.length) none).length := by simp
-      have e1 := firstOcc_extend (P := occV s w) hL hout
-      have e2 := lastOcc_extend (P := occV s w) hL hout
+      have e1 := firstOcc_extend (P := occVAt s w) hL hout
+      have e2 := lastOcc_extend (P := occVAt s w) hL hout
       rw [e1, e2]
     · rfl
 
